@@ -92,3 +92,29 @@ Proof.
   - left. rewrite Z.add_0_r. rewrite slice_from_in_range by (pose proof (len_nonneg (text_before_cursor d)); lia).
     rewrite Z2N_len. apply skipn_all.
 Qed.
+
+(* get_start_of_line_position(after_whitespace=True): column w = len(line) -
+   len(line.lstrip()) of the current line: the first w characters are blank, the
+   character at w (if any) is not *)
+Theorem start_of_line_after_whitespace_lands d :
+  let w := cursor_position_col d + get_start_of_line_position d true in
+  0 <= w <= len (current_line d) /\
+  forallb is_space (firstn (Z.to_nat w) (current_line d)) = true /\
+  (forall x, nth_error (current_line d) (Z.to_nat w) = Some x -> is_space x = false) /\
+  leading_whitespace_in_current_line d = firstn (Z.to_nat w) (current_line d).
+Proof.
+  cbv zeta. unfold get_start_of_line_position, leading_whitespace_in_current_line. cbv zeta.
+  destruct (lstrip_by_spec is_space (current_line d)) as (a & Ha & Hf & Hh).
+  set (cl := current_line d) in *. set (ls := lstrip_by is_space cl) in *.
+  assert (Hlen : len cl = len a + len ls) by (rewrite Ha at 1; apply len_app).
+  pose proof (len_nonneg a) as Ha0. pose proof (len_nonneg ls) as Hl0.
+  replace (cursor_position_col d + (len cl - len ls - cursor_position_col d)) with (len a) by lia.
+  replace (len cl - len ls) with (len a) by lia.
+  rewrite Z2N_len.
+  assert (Hfa : firstn (length a) cl = a).
+  { rewrite Ha. rewrite firstn_app, Nat.sub_diag, firstn_all. cbn [firstn]. apply app_nil_r. }
+  split; [lia|]. split; [now rewrite Hfa|]. split.
+  - intros x Hx. rewrite Ha in Hx. rewrite nth_error_app2 in Hx by lia. rewrite Nat.sub_diag in Hx.
+    destruct ls as [|y l]; [discriminate|]. cbn [nth_error] in Hx. injection Hx as <-. exact Hh.
+  - rewrite slice_to_in_range by lia. now rewrite Z2N_len.
+Qed.
